@@ -328,9 +328,7 @@ impl LogStore for SimLogStore {
             d.stats.flush_fail_fired += 1;
             return Err(eio("flush"));
         }
-        let hard = d.durable.hard;
         d.durable = d.cache.clone();
-        d.durable.hard = hard.or(d.durable.hard);
         d.unsynced.clear();
         let li = SimDisk::last_index(&d.durable);
         d.flush_ledger.push((crate::seams::vnow_ms(), li));
